@@ -371,6 +371,23 @@ def run(case):
                     if np.asarray(ta[c]).tobytes() != np.asarray(tb[c]).tobytes():
                         violation(out, 'column-depends-on-request', site, {'column': c, 'a': ra, 'b': rb})
                         return out
+        # storage fault after the reads: the same file (same inode) is overwritten in place; a returned table holds the
+        # values decoded when it was read and must not follow the storage
+        if results:
+            before = [{c: np.asarray(t[c]).tobytes() for c in t.colnames} for _, t in results]
+            with open(fn, 'r+b') as fh:
+                blob = fh.read()
+                fh.seek(0)
+                fh.write(bytes(255 - x for x in blob) if len(blob) < (1 << 16) else (np.frombuffer(blob, dtype=np.uint8) ^ 0xFF).tobytes())
+                fh.flush()
+                os.fsync(fh.fileno())
+            bump(out['faults'], 'file-overwritten-in-place-after-read')
+            for (req, t), snap in zip(results, before):
+                for c in t.colnames:
+                    if np.asarray(t[c]).tobytes() != snap[c]:
+                        violation(out, 'table-aliases-storage', site, {'column': c, 'request': req, 'kind': kind,
+                                                                       'fault': 'file overwritten in place after read_asdf returned'})
+                        return out
     if kind == 'pack9' and len(case['recs']) > nrows:
         bump(out['probes'], 'pack9-fewer-rows-than-records')
     if nrows == 0:
